@@ -9,12 +9,28 @@
 //   modname <mask>             -> hex of RimeGetModifierName | null
 //   modcode <hex>              -> RimeGetModifierByName(c_str)
 //   sim <hex>                  -> ok | fail   (RimeApi::simulate_key_sequence on a fresh session)
+//   ctor <hex>                 -> <keycode> <mask> of KeyEvent(text)      (the constructor: Parse, or 0 0 when it fails)
+//   seqctor <hex>              -> <k:m,...|-> of KeySequence(text)        (the constructor: Parse, or empty when it fails)
+//   kbind <accept hex> <send|seq> <target hex> <k> <m>
+//                              -> rec <k:m,...|-> : a fresh engine whose schema has the processors [key_binder, recorder] and
+//                                 `key_binder/bindings: [{when: always, accept: <text>, send|send_sequence: <text>}]`
+//                                 (KeyBindings::LoadBindings of gear/key_binder.cc); the key (k, m) is pressed and the recorder
+//                                 lists the key events that reach it
+//   navbind <key hex> <k> <m>  -> caret <n> : processors [navigator] with `navigator/bindings: {<text>: home}`
+//                                 (KeyBindingProcessor::LoadConfig of gear/key_binding_processor_impl.h), input "abc" with the
+//                                 caret at 3, the key (k, m) pressed
 // key codes / masks: decimal 32-bit patterns of the C ints.
 // usage: c19_harness <ops-file> <out-file> [<workdir for sim>]
 #include "hcommon.h"
 #include <cinttypes>
+#include <rime/config.h>
+#include <rime/context.h>
+#include <rime/engine.h>
 #include <rime/key_event.h>
 #include <rime/key_table.h>
+#include <rime/processor.h>
+#include <rime/registry.h>
+#include <rime/schema.h>
 
 using namespace vh;
 
@@ -58,6 +74,23 @@ static std::string show(const rime::KeySequence& ks) {
     o += std::to_string((uint32_t)ks[i].keycode()) + ":" + std::to_string((uint32_t)ks[i].modifier());
   }
   return o;
+}
+
+// the last processor of the kbind engine: lists what reaches it
+static std::string g_rec;
+struct RecProcessor : rime::Processor {
+  explicit RecProcessor(const rime::Ticket& t) : rime::Processor(t) {}
+  rime::ProcessResult ProcessKeyEvent(const rime::KeyEvent& e) override {
+    if (!g_rec.empty()) g_rec += ",";
+    g_rec += std::to_string((uint32_t)e.keycode()) + ":" + std::to_string((uint32_t)e.modifier());
+    return rime::kAccepted;
+  }
+};
+
+static rime::an<rime::ConfigList> str_list(std::initializer_list<const char*> l) {
+  auto r = rime::New<rime::ConfigList>();
+  for (auto x : l) r->Append(rime::New<rime::ConfigValue>(x));
+  return r;
 }
 
 int main(int argc, char** argv) {
@@ -112,6 +145,54 @@ int main(int argc, char** argv) {
       session = api->create_session();
       res = api->simulate_key_sequence(session, unhex(p[1]).c_str()) ? "ok" : "fail";
       api->destroy_session(session);
+    } else if (p.size() == 2 && p[0] == "ctor" && hexok(p[1])) {
+      rime::KeyEvent e(unhex(p[1]));
+      res = std::to_string((uint32_t)e.keycode()) + " " + std::to_string((uint32_t)e.modifier());
+    } else if (p.size() == 2 && p[0] == "seqctor" && hexok(p[1])) {
+      rime::KeySequence ks(unhex(p[1]));
+      res = show(ks);
+    } else if (p.size() == 6 && p[0] == "kbind" && hexok(p[1]) && (p[2] == "send" || p[2] == "seq") && hexok(p[3]) &&
+               u32(p[4], &a) && u32(p[5], &b) && !workdir.empty()) {
+      if (!api) api = start(workdir, workdir, false);
+      static bool registered = false;
+      if (!registered) {
+        rime::Registry::instance().Register("c19_rec", new rime::Component<RecProcessor>);
+        registered = true;
+      }
+      auto* config = new rime::Config;
+      auto engine_map = rime::New<rime::ConfigMap>();
+      engine_map->Set("processors", str_list({"key_binder", "c19_rec"}));
+      config->SetItem("engine", engine_map);
+      auto binding = rime::New<rime::ConfigMap>();
+      binding->Set("when", rime::New<rime::ConfigValue>("always"));
+      binding->Set("accept", rime::New<rime::ConfigValue>(unhex(p[1])));
+      binding->Set(p[2] == "send" ? "send" : "send_sequence", rime::New<rime::ConfigValue>(unhex(p[3])));
+      auto bindings = rime::New<rime::ConfigList>();
+      bindings->Append(binding);
+      auto kb = rime::New<rime::ConfigMap>();
+      kb->Set("bindings", bindings);
+      config->SetItem("key_binder", kb);
+      std::unique_ptr<rime::Engine> engine(rime::Engine::Create());
+      engine->ApplySchema(new rime::Schema("c19_bind", config));
+      g_rec.clear();
+      engine->ProcessKey(rime::KeyEvent((int)a, (int)b));
+      res = "rec " + (g_rec.empty() ? std::string("-") : g_rec);
+    } else if (p.size() == 4 && p[0] == "navbind" && hexok(p[1]) && u32(p[2], &a) && u32(p[3], &b) && !workdir.empty()) {
+      if (!api) api = start(workdir, workdir, false);
+      auto* config = new rime::Config;
+      auto engine_map = rime::New<rime::ConfigMap>();
+      engine_map->Set("processors", str_list({"navigator"}));
+      config->SetItem("engine", engine_map);
+      auto bindings = rime::New<rime::ConfigMap>();
+      bindings->Set(unhex(p[1]), rime::New<rime::ConfigValue>("home"));
+      auto nav = rime::New<rime::ConfigMap>();
+      nav->Set("bindings", bindings);
+      config->SetItem("navigator", nav);
+      std::unique_ptr<rime::Engine> engine(rime::Engine::Create());
+      engine->ApplySchema(new rime::Schema("c19_nav", config));
+      engine->context()->set_input("abc");
+      engine->ProcessKey(rime::KeyEvent((int)a, (int)b));
+      res = "caret " + std::to_string(engine->context()->caret_pos());
     }
     fputs(res.c_str(), out);
     fputc('\n', out);
